@@ -274,22 +274,31 @@ example :
 /-- `x % a % b` with a float `x` and ints `a`, `b`, every element tagged with its true type -/
 def wFmod : Node := .chain 9 .float (.atom 1 ['x']) (.cons .mod false .int (.atom 2 ['a']) (.cons .mod false .int (.atom 3 ['b']) .nil))
 
-/-- **Defect of the emitter, characterised.** The tag check of `pyEval` is not vacuous: `proc_binary_operation_expression` keeps the
-    type of the previous *right element* as the type of the accumulated left operand (`primary_raw = right_raw`, py2cpp.py:1486), so
-    for `x % a % b` the second `%` is rendered with the integer template although its left operand is the float `fmod(x, a)`:
-    the emitted text is `fmod(x, a) % b`, whose C++ evaluation is ill-formed for every float `x` (g++ rejects it; finding
-    `fmod:left-type`, corpus/C01/fmod-left-type.json). -/
-theorem fmod_left_type_counterexample :
-    String.ofList (text (emitRaw wFmod)) = "fmod(x, a) % b" ∧ wf wFmod = true ∧ coreS wFmod = true ∧
-    ∀ {F : Type} (ops : FOps F) (ρ : PEnv F) (x : F), ρ 1 = .flt x → cEvalX ops ρ (xOf wFmod) = .error .ub := by
-  refine ⟨by decide, by decide, by decide, ?_⟩
-  intro F ops ρ x hx
-  have hxo : xOf wFmod = .plain (.bin (BOp.code .mod)
-      (.leaf (.name nFmod) (.call (.cons (.plain (leafO (.atom 1))) (.cons (.plain (leafO (.atom 2))) .nil)) .nil)) (leafO (.atom 3))) := by
-    decide
-  rw [hxo]
-  simp only [cEvalX, cEvalO, leafO, hx, PVal.repr, CVal.toF]
-  cases ρ 2 <;> cases ρ 3 <;> rfl
+/-- **Regression of the repaired defect `fmod:left-type`** (6063966). Before the repair `proc_binary_operation_expression` kept the
+    type of the previous *right element* as the type of the accumulated left operand, so the second `%` of `x % a % b` was rendered
+    with the integer template: `fmod(x, a) % b`, ill-formed for every float `x`. With `Ty.acc` (floating point once an element
+    was) the emitted text is `fmod(fmod(x, a), b)`, the node is inside `agree_full` (so every in-subset Python value is the C++
+    value of the emitted tokens), and the tag check of `pyEval` accepts it for every float `x` and ints `a`, `b`
+    (corpus/C01/fmod-left-type.json now agrees). -/
+theorem fmod_left_type_regression :
+    String.ofList (text (emitRaw wFmod)) = "fmod(fmod(x, a), b)" ∧
+    (∀ {F : Type} (ops : FOps F), ModLaw ops → ∀ (ρ : PEnv F) (v : PVal F), pyEval ops ρ wFmod = .ok v →
+      ∃ x, ParsesTo (toksW wFmod) x ∧ cEvalX ops ρ x = .ok v.repr) ∧
+    (∀ {F : Type} (ops : FOps F) (ρ : PEnv F) (x : F) (a b : Int), ρ 1 = .flt x → ρ 2 = .int a → ρ 3 = .int b →
+      pyEval ops ρ wFmod ≠ .error .tagMismatch) ∧
+    pyEval toyOps (fun i => if i = 1 then .flt 7 else if i = 2 then .int 4 else .int 2) wFmod = .ok (.flt 1) := by
+  refine ⟨by decide, ?_, ?_, by decide⟩
+  · intro F ops hlaw ρ v hv
+    exact agree_full ops hlaw ρ wFmod v (by decide) (by decide) (by decide) hv
+  · intro F ops ρ x a b hx ha hb
+    have e1 : ∀ (y : F) (c : Int), pyBin2 ops .mod (.flt y) (.int c) =
+        if (ops.nonneg y && ops.pos (ops.ofInt c)) = true then .ok (.flt (ops.pyMod y (ops.ofInt c))) else .error .outOfSubset := by
+      intro y c; simp [pyBin2, PVal.toVal, PVal.toF, pyBinF]
+    simp only [wFmod, pyEval, pyEvalRest, hx, ha, hb, pchk]
+    by_cases h2 : inI32 a = true <;> by_cases h3 : inI32 b = true <;>
+      by_cases h4 : (ops.nonneg x && ops.pos (ops.ofInt a)) = true <;>
+      by_cases h5 : (ops.nonneg (ops.pyMod x (ops.ofInt a)) && ops.pos (ops.ofInt b)) = true <;>
+      simp [h2, h3, h4, h5, e1, Ty.acc, Ty.isFloat, PVal.isF] <;> split <;> simp
 
 /-! ## statements core: `v = e`, `return e`, `if/elif/else`, `while` over the operator core -/
 
